@@ -104,8 +104,27 @@ def fallible_ict(rng, spec):
     return {"n": n, "lines": lines, "attach": attach}
 
 
+def reclose_then_own_line(rng, c):
+    """targeted history: a section away from the feeder head fails and is isolated, the breaker recloses; then the feeder's own
+    first line fails and holds the breaker open; the first section's repair completes during that outage; the first line is
+    repaired last"""
+    fd = c["spec"]["feeders"][0]
+    if len(fd["parent"]) < 2:
+        return
+    x = rng.randrange(1, len(fd["parent"]))
+    fd["sw"][x] = rng.choice([1, 2, 3])
+    Tq, dt = F(c["spec"]["ctrl"]["T"]), F(c["dt"])
+    k1 = rng.randint(1, 2)
+    k2 = k1 + math.ceil(Tq / dt) + rng.randint(2, 3)
+    c["faults"] = {str(k1): [[f"F0L{x}", "3"]], str(k2): [["F0L0", "6"]]}
+    c["n_inc"] = k2 + int((6 + 2 * Tq) / dt) + int((Tq + 3) / dt) + 8
+
+
 def gen(rng, nm, na):
     cases = [ctl.gen_scenario(rng, max_lines=rng.choice([3, 5, 7])) for _ in range(nm)]
+    for j, c in enumerate(cases):
+        if j % 5 == 0:
+            reclose_then_own_line(rng, c)
     for _ in range(na):
         c = ctl.gen_scenario(rng, max_lines=5, ctrl="main")
         if rng.random() < 0.4:
